@@ -53,15 +53,19 @@ pub static EXACT: AtomicBool = AtomicBool::new(false);
 pub struct Watch {
     beat: Arc<AtomicU64>,
     current: Arc<Mutex<Option<serde_json::Value>>>,
+    /// the call in progress: (entry point, input, buffer length)
+    in_call: Arc<Mutex<Option<(&'static str, Vec<u8>, usize)>>>,
 }
 
 impl Watch {
     pub fn start(out: String, secs: u64) -> Watch {
         let beat = Arc::new(AtomicU64::new(0));
         let current: Arc<Mutex<Option<serde_json::Value>>> = Arc::new(Mutex::new(None));
+        let in_call: Arc<Mutex<Option<(&'static str, Vec<u8>, usize)>>> = Arc::new(Mutex::new(None));
         if !under_miri() {
             let b = beat.clone();
             let c = current.clone();
+            let ic = in_call.clone();
             let _ = std::thread::spawn(move || {
                 let mut last = b.load(Ordering::Relaxed);
                 let mut stuck = 0u64;
@@ -75,7 +79,10 @@ impl Watch {
                         last = now;
                     }
                     if stuck >= secs {
-                        let case = c.lock().unwrap().clone().unwrap_or(json!(null));
+                        let case = match ic.lock().unwrap().clone() {
+                            Some((entry, input, buflen)) => json!({"kind":"call","entry":entry,"input_hex":hex(&input),"buflen":buflen,"input_preview":show(&input, 200)}),
+                            None => c.lock().unwrap().clone().unwrap_or(json!(null)),
+                        };
                         let v = json!({"property":"C03","signature":"non-termination","replay":case});
                         let _ = std::fs::write(format!("{out}.timeout"), serde_json::to_vec(&v).unwrap());
                         std::process::exit(86);
@@ -83,7 +90,14 @@ impl Watch {
                 }
             });
         }
-        Watch { beat, current }
+        Watch { beat, current, in_call }
+    }
+    /// a monitored call begins (kept for the watchdog: if it never returns, this is the case to report)
+    pub fn enter(&self, entry: &'static str, input: &[u8], buflen: usize) {
+        *self.in_call.lock().unwrap() = Some((entry, input.to_vec(), buflen));
+    }
+    pub fn leave(&self) {
+        *self.in_call.lock().unwrap() = None;
     }
     #[inline]
     pub fn tick(&self) {
@@ -205,6 +219,7 @@ fn battery_filter(f: &Filter) {
 /// One call of one entry point, fully monitored.
 pub fn call(rep: &mut Report, w: &Watch, entry: Entry, input: &[u8], buflen: usize) {
     w.tick();
+    w.enter(entry.name(), input, buflen);
     let exact = EXACT.load(Ordering::Relaxed) || under_miri();
     let mut g = Guarded::new(if entry.uses_buffer() { buflen } else { 0 }, 0xA5, exact);
     let mut past_first_check = false;
@@ -294,6 +309,7 @@ pub fn call(rep: &mut Report, w: &Watch, entry: Entry, input: &[u8], buflen: usi
             }
         }
     });
+    w.leave();
     // non-trivial: got past the very first length check (a heuristic: input long enough / buffer non-zero)
     match entry {
         Entry::EventJson => past_first_check = input.len() >= 204 && buflen >= 152,
